@@ -10,7 +10,8 @@ pub trait AddAssign: Sized {
 
 impl<T> ChangeSet<T> {
     pub open spec fn wf(&self) -> bool {
-        forall|i: Index| #![trigger self.mask@.contains(i)] #![trigger self.inner.has(i)] self.mask@.contains(i) <==> self.inner.has(i)
+        &&& self.inner.us_wf()
+        &&& forall|i: Index| #![trigger self.mask@.contains(i)] #![trigger self.inner.has(i)] self.mask@.contains(i) <==> self.inner.has(i)
     }
     // entity index -> accumulated amount
     pub open spec fn view(&self) -> Map<Index, T> { Map::new(self.mask@, |i: Index| self.inner.val(i)) }
